@@ -29,6 +29,19 @@ def run(call):
                 return {"kind": "return", "value": {"ok": all(v in names for v in vals) is False, "dropped": len(vals) - len(r)}}
             bad = [(v, int(x)) for v, x in zip(vals, r) if not (0 <= int(x) < len(names)) or names[int(x)] != v]
             return {"kind": "return", "value": {"ok": not bad, "name-vs-index": bad[:4], "declared": names}}
+        if mode == "encode-names":
+            from openfisca_core import indexed_enums
+            names = call["names"]
+            H = indexed_enums.Enum("H", {nm: "value " + nm for nm in names})
+            vals = list(call["values"])
+            arr = numpy.array(vals) if call.get("as_array") else vals
+            must_raise = any(v not in names for v in vals)
+            try:
+                r = H.encode(arr)
+            except IndexError as e:
+                return {"kind": "return", "value": {"ok": must_raise, "raised": type(e).__name__}}
+            bad = [(v, int(x)) for v, x in zip(vals, r) if not (0 <= int(x) < len(names)) or names[int(x)] != v]
+            return {"kind": "return", "value": {"ok": not must_raise and len(r) == len(vals) and not bad, "encoded": [int(x) for x in r], "input": vals, "declared": names}}
         n = max(1, int(call["n"]))
         H = make_enum(n)
         vals = [int(v) for v in call["values"]]
